@@ -18,7 +18,7 @@ RULE = ("honest matrices (m <= 10 rows) with up to b (TrimmedMean) / f (Krum) ro
         "was corrupted at >= 1e3 x the honest scale; distinct = case sha1")
 EXHAUSTIVE_NOTE = {"quick": "rejection grid: all (m, b) with m < 2b+1 and all (m, f, k) with m < f+3 or m < k, m <= 9", "thorough": "same grid"}
 ASSUMPTIONS = ["Krum weights recovered from a forward hook on the weighting when present, else by least squares on a full-row-rank matrix"]
-N = {"quick": 6000, "thorough": 1000000}
+N = {"quick": 6000, "thorough": 3000000}
 
 
 def exhaustive(tier):
